@@ -54,6 +54,24 @@ def checkedAdd (a b : Nat) : Option Nat := if a + b < 2 ^ 64 then some (a + b) e
 
 end KOps
 
+/-- Control flow of a translated function body (tools/rustflow.py): it returned `r`, fell through with the
+mutable variables `s`, or panicked (assertion, index out of bounds). -/
+inductive Flow (ρ σ : Type) where
+  | ret (r : ρ)
+  | cont (s : σ)
+  | panic
+  deriving Repr, DecidableEq
+
+def Flow.bind {ρ σ τ : Type} (x : Flow ρ σ) (f : σ → Flow ρ τ) : Flow ρ τ :=
+  match x with
+  | .ret r => .ret r
+  | .cont s => f s
+  | .panic => .panic
+
+@[simp] theorem Flow.bind_ret {ρ σ τ : Type} (r : ρ) (f : σ → Flow ρ τ) : (Flow.ret r : Flow ρ σ).bind f = .ret r := rfl
+@[simp] theorem Flow.bind_cont {ρ σ τ : Type} (s : σ) (f : σ → Flow ρ τ) : (Flow.cont s : Flow ρ σ).bind f = f s := rfl
+@[simp] theorem Flow.bind_panic {ρ σ τ : Type} (f : σ → Flow ρ τ) : (Flow.panic : Flow ρ σ).bind f = .panic := rfl
+
 instance : KOps Float where
   pi := Float.ofBits 0x400921FB54442D18
   e := Float.ofBits 0x4005BF0A8B145769
